@@ -234,7 +234,9 @@ impl RosSys {
                     if k < *nt {
                         Kind::Timer
                     } else if known[k] {
-                        Kind::Polled(k as i32)
+                        // priorities are only ever compared: spread them over the whole value
+                        // range (i32::MIN ... i32::MAX, e.g. sentinel values), order preserved
+                        Kind::Polled(if n < 2 { 0 } else { (i32::MIN as i64 + k as i64 * ((u32::MAX as i64) / (n as i64 - 1))) as i32 })
                     } else {
                         Kind::PolledUnknown
                     }
